@@ -26,7 +26,8 @@ import tdgen
 THEOREMS = ["C13_complete_undefined_class_type", "C13_complete_undefined_class_parent",
             "C13_complete_undefined_class_value", "C13_complete_undefined_multiclass",
             "C13_complete_undefined_identifier", "C13_complete_undefined_include",
-            "C13_complete_surplus_template_argument", "C13_complete_incompatible_argument",
+            "C13_complete_surplus_template_argument", "C13_complete_missing_template_argument",
+            "C13_complete_incompatible_argument",
             "C13_complete_incompatible_initialiser", "C13_complete_operator_arity", "C13_complete_syntax_error",
             "C13_diagnostics_persist", "C13_sound_refuted"]
 TRUSTED = [
